@@ -5181,6 +5181,10 @@ class TypeChecker(NodeVisitor[None], TypeCheckerSharedApi, SplittingVisitor):
                         is_valid_inferred_type(key_type, self.options)
                         and is_valid_inferred_type(value_type, self.options)
                         and not self.current_node_deferred
+                        # Checking the index or the value may itself have completed the partial
+                        # type (d[k] = [d.update(...)]), which removes var from partial_types.
+                        and var in partial_types
+                        and isinstance(var.type, PartialType)
                         and not (
                             typename == "collections.defaultdict"
                             and var.type.value_type is not None
